@@ -209,11 +209,12 @@ pub fn finish(ctx: &CheckCtx, mut res: CheckResult) -> ! {
         res.machinery_errors.len(),
         evp
     );
-    if !res.machinery_errors.is_empty() {
-        std::process::exit(2);
-    }
+    // a violation is a verdict even if some other part of the run had a machinery problem
     if n_viol > 0 {
         std::process::exit(1);
+    }
+    if !res.machinery_errors.is_empty() {
+        std::process::exit(2);
     }
     std::process::exit(0);
 }
